@@ -710,6 +710,28 @@ def model_profile(op):
     return None
 
 
+def wrapper_profile(op):
+    """(kind, [(sub profile, sub n)]) understood by the Lean WRAPPER model (LinOp/C12/Classes.lean), or None."""
+    import linear_operator.operators as O
+    t = type(op)
+    kind = {O.BatchRepeatLinearOperator: "batchRepeat", O.BlockDiagLinearOperator: "block", O.BlockInterleavedLinearOperator: "blockInterleaved",
+            O.ConstantMulLinearOperator: "constMul"}.get(t)
+    if kind is None:
+        return None
+    subs = [a for a in op._args if isinstance(a, O.LinearOperator)]
+    if len(subs) != 1 or model_profile(subs[0]) not in ("base", "sum"):
+        return None
+    if kind == "constMul" and not bool(torch.all(op._constant >= 0)):
+        return None
+    return kind, [(model_profile(x), x.shape[-1]) for x in subs]
+
+
+def wkeys(op):
+    import linear_operator.operators as O
+    f = lambda o: " ".join(k for k in keyset(o) if key_name(k) not in UNMODELLED_NAMES) or "-"  # noqa: E731
+    return "W " + f(op) + "".join(" | S " + f(a) for a in op._args if isinstance(a, O.LinearOperator))
+
+
 KEYS_ONLY = ("diag", "chol")
 UNMODELLED_NAMES = ("size", "fn:_diagonal", "fn:inverse")
 
@@ -726,6 +748,12 @@ def q_line(q, st, n):
     if q[0] in ("root", "rootinv", "diagz"):
         return f"q {s} {q[0]} {q[1]} {m}"
     return f"q {s} {q[0]}"
+
+
+def wq_line(q, st, n, tgt):
+    """History step on the wrapper (`self`) or on its i-th sub-operator (`sub<i>`) -> wrapper-model driver line."""
+    sw = q_line(q, st, n).split(" ")
+    return "wq " + " ".join(sw[1:5]) + " " + tgt + " " + " ".join(sw[5:])
 
 
 # ----------------------------------------------------------------------------------------------- histories
@@ -920,6 +948,7 @@ class Runner:
     def __init__(self, chk, env):
         self.chk, self.env = chk, env
         self.lines, self.expect, self.owner = [], [], []
+        self.wlines, self.wexpect, self.wowner = [], [], []    # wrapper model (wrapper + sub-operator key sets)
         self.after_derive = []      # per line: a derived object exists, whose queries may memoise the parent's to_dense
         self.excluded = {}
 
@@ -979,6 +1008,12 @@ class Runner:
             mlines.append(f"new {prof} {spec.n}")
             mexp.append(None)
         modelled = record and prof is not None
+        wprof = wrapper_profile(op) if record else None
+        wl, we = [], []
+        if wprof is not None:
+            wl.append(f"wnew {wprof[0]} {spec.n} " + ",".join(f"{a}:{b}" for a, b in wprof[1]))
+            we.append(None)
+        wmod = wprof is not None
         snap = {}
         for si, (st, step) in enumerate(hist):
             fr = stack[-1]
@@ -1000,7 +1035,11 @@ class Runner:
                     env.tap.items = []
                     fr["tainted"] = True
                     modelled = False
+                    wmod = False
                     continue
+                if wmod and len(stack) == 1:
+                    wl.append(wq_line(step[1], st, fr["A"].shape[-1], "self"))
+                    we.append(wkeys(fr["op"]))
                 fr["sticky"] |= set(logs_a)
                 fr.setdefault("approx", set()).update(set(keyset(fr["op"])) - before)
                 chk.count("approx-steps")
@@ -1031,6 +1070,7 @@ class Runner:
                     continue
                 if len(stack) > 1:
                     modelled = False    # the handle may be the parent object itself: its cache changes behind the single-object model
+                wtop = fr
                 fr = fr["sub"]
                 step = ("q", step[1])
             op, A = fr["op"], fr["A"]
@@ -1089,6 +1129,7 @@ class Runner:
                     else:
                         chk.count("both-raise")
                     modelled = False
+                    wmod = False
                     fr["tainted"] = True
                     continue
                 fr["sticky"] |= set(logs) | set(flogs)
@@ -1109,6 +1150,11 @@ class Runner:
                 a_f, unknown = audit_cache(op, A, fr["sticky"], fr["pd"], skip=fr.get("approx", ()))
                 if q[0] == "rootinv_iv":
                     modelled = False      # tensor-keyed entries are outside the Lean key grammar
+                    wmod = False
+                if wmod and len(stack) == 1:
+                    # wrapper model: key sets of the wrapper AND of its sub-operators after a query on either handle
+                    wl.append(wq_line(q, st, n, "sub0" if is_sub else "self"))
+                    we.append(wkeys(wtop["op"] if is_sub else op))
                 if not fr["tainted"]:
                     for b in a_f:
                         fails.append((f"C12/{fr['cls']}/{fr['lineage']}/cache-audit:{entry_name(b)}", f"after step {si} ({q}) settings={st}: {b}"))
@@ -1128,6 +1174,7 @@ class Runner:
                     stack.append(fr)
                     aliases.append(True)
                     continue
+                wmod = False        # derived objects share the sub-operators: outside the single-wrapper model
                 captured = {}
                 pin_tainted = False
                 transplant = d[0] in ("add_low_rank", "cat_rows")
@@ -1247,6 +1294,10 @@ class Runner:
             self.lines += mlines
             self.expect += mexp
             self.owner += [hid] * len(mlines)
+            if len(wl) > 1:
+                self.wlines += wl
+                self.wexpect += we
+                self.wowner += [hid] * len(wl)
         return fails
 
 
@@ -1356,6 +1407,23 @@ def run(chk):
                                {"class": spec.cls, "history": hist_json(hist), "line": j})
                 break
             chk.traces_validated += 1
+    chk.count("wrapper-model-lines", len(runner.wlines))
+    if runner.wlines:
+        outs = chk.run_driver("C12", runner.wlines)
+        if outs is not None:
+            bad_h = set()
+            for j, (o, e) in enumerate(zip(outs, runner.wexpect)):
+                hid = runner.wowner[j]
+                if e is None or hid in bad_h:
+                    continue
+                if o != e:
+                    bad_h.add(hid)
+                    spec, hist, _ = hists[hid]
+                    chk.corr_break(f"C12/correspondence-wrapper/{spec.cls}", f"line `{runner.wlines[j]}`: model `{o[:300]}` impl `{e[:300]}`",
+                                   {"class": spec.cls, "history": hist_json(hist), "line": j})
+                    break
+                chk.traces_validated += 1
+                chk.count("wrapper-model-steps-agree")
 
 
 def replay(chk, payload):
